@@ -66,6 +66,9 @@ class C11(Prop):
         "PrefVerif.C11.bruteSP_iff",
         "PrefVerif.C11.consOnes_iff",
         "PrefVerif.C11.consOnes_C1P_iff_SP",
+        "PrefVerif.ILPP.sp_axis_feasible",
+        "PrefVerif.ILPP.sp_feasible_axis",
+        "PrefVerif.ILPP.sp_feasible_iff",
     ]
     rule = ("soc / toc instances with 1-6 alternatives (ties at the top, complete indifference, planted single-peaked "
             "and perturbed profiles); all axes for m <= 4, 6 random axes otherwise; ILP on ~1/6 of the cases; all "
